@@ -70,6 +70,14 @@ func wholeSemanticCases() []semCase {
 		sc("repetition of a choice, a repetition followed by its own operand, an optional rule call in front of a literal it can start with",
 			"S", gSeq(gPlus(gAlt(gLit("ab"), gC("a"))), gN("T"), gQ(gN("T")), gLit("ac"), eof()),
 			"T", gSeq(gC("a"), gC("c"))),
+		sc("alternatives with a common tail, a lookahead-only alternative in front of another, e followed by a repetition of something almost e",
+			"S", gSeq(gN("T"), gN("Sep"), gN("R"), eof()),
+			"R", gSeq(gC("x"), gRange("0", "9"), gStar(gSeq(gC("x"), gRange("a", "z")))),
+			"T", gAlt(gSeq(gC("<"), gC(">")), gSeq(gC("<"), gC("/"), gC(">"))),
+			"Sep", gAlt(gAnd(gC(")")), gC(","))),
+		sc("a capture inside a lookahead in front of an action, a capture directly around a capture",
+			"S", gSeq(gAnd(gSeq(gPush(gPlus(gRange("a", "z"))), gC("="))), gActS("__act0(text)"), gN("K"), gC("="), gPush(gPush(gPlus(gRange("0", "9")))), gActS("__act1(text)"), gC(";")),
+			"K", gPlus(gRange("a", "z"))),
 		sc("recursion through a parenthesised expression",
 			"E", gSeq(gN("T"), gStar(gSeq(gC("+"), gN("T")))),
 			"T", gAlt(gSeq(gC("("), gN("E"), gC(")")), gPlus(gRange("0", "9")))),
@@ -278,7 +286,7 @@ func wholeSemantics(c *Check, r *Repo, rule string, opts modelOpts) {
 	default:
 		c.OK(rule, construct, "", fmt.Sprintf("%d rule functions of %d grammars (keywords, nested choices and sequences, classes, rule calls, lookaheads, captures and actions, predicates, recursion) built through the builder API and taken through all of Compile: outcome sets (verdict, position, tokens, events) equal the oracle's for the grammar as written (%d rule functions of random grammars not examined: too many paths)", n-skipped, len(cases), skipped))
 	}
-	c.Floor(rule, n, 17)
+	c.Floor(rule, n, 21)
 }
 
 // randomSemCases: seeded random well-formed grammars over concrete leaves —
